@@ -91,6 +91,27 @@ CLAIMS = {
                  "{0,1,2}, no panic marker, wall-clock limit), not by proof."),
         "ref": "DESIGN.md §4 C10",
     },
+    "C13": {
+        "technique": "Lean 4 theorems on parse_datetime's interval construction and the date comparison table (interval spans per precision, cmp_table, trichotomy, rejection of out-of-range fields, relative days, scanner lemmas) + CLI correspondence on an edge-time grid in three fixed-offset zones + Python datetime oracle",
+        "text": ("Theorems for every valid civil date and in-range clock fields: a literal at day/hour/minute/second precision denotes "
+                 "[a, a+span-1] with span 86400/3600/60/1 and a ≤ b; for every entry time t: = ⟺ a ≤ t ≤ b, != its complement, < ⟺ t < a, "
+                 "> ⟺ t > b, <= ⟺ t ≤ b, >= ⟺ t ≥ a, and exactly one of <, =, > holds; out-of-range fields and impossible dates are a "
+                 "status-2 error (D56 fixed); today/yesterday denote whole local days relative to the clock parameter; the DATE_REGEX scanner "
+                 "reads YYYY-MM-DD with either separator for arbitrary digits. chrono's calendar arithmetic (modelled by Hinnant's algorithms), "
+                 "the printed `modified` column and zone handling are tied by correspondence on a grid of edge times in three fixed-offset "
+                 "zones; DST zones and chrono-english free-form dates are outside the model."),
+        "ref": "DESIGN.md §4 C13",
+    },
+    "C14": {
+        "technique": "Lean 4 theorem unit_table over the generated parse_filesize ladder (decide over generated table × documentation table, lifted by a lemma about any well-formed ladder; parse∘show lemmas for u64 and f64) + in-process and CLI correspondence + multiplier/round-trip/monotonicity oracles",
+        "text": ("Theorems: for every natural n and every documented unit u (k, kib, kb, m, mib, mb, g, gib, gb, t, tib, tb, b), "
+                 "parse_filesize(\"<n><u>\") = n × the documented multiplier while the product fits in u64 — proved from two `decide` facts "
+                 "over the ladder regenerated from the Rust source on every run (well-formedness; first matching rung = the unit with the "
+                 "documented multiplier) and a general lemma about well-formed ladders; letter case is irrelevant. Fractional literals and "
+                 "the FORMAT_SIZE/fsize specifier grammar are modelled in ℚ (exact on dyadic values, one unit in the last place otherwise) "
+                 "and decided by in-process + CLI correspondence; monotonicity and round-trip within the displayed precision by oracle."),
+        "ref": "DESIGN.md §4 C14",
+    },
     "C19": {
         "technique": "Lean 4 theorems on the archive member loop and member columns (loop = fold of check_file over the member table; LIMIT prefix; column specifications) + CLI correspondence with zipfile-read member tables + metamorphic oracle",
         "text": ("Theorems: without a streamed LIMIT (no limit, or buffered query — D13 fixed) the member loop is exactly the left fold of "
